@@ -526,6 +526,13 @@ pub fn v_format2_str(lit: &str, a: &str, b: &str) -> (r: String)
         _ => unreachable!("R-fmt applied to an unknown literal"),
     }
 }
+/// R-std: `x.strip_prefix(lit).unwrap_or(&x)` (trusted wrapper whose body is the original expression)
+#[verifier::external_body]
+pub fn v_strip_prefix_or_self<'a>(x: &'a String, lit: &str) -> (r: &'a str)
+    ensures r@ == crate::verif_specs::spec_strip_prefix(x@, lit@)
+{
+    x.strip_prefix(lit).unwrap_or(x)
+}
 /// R-std: `FunctionBody::field(a, b)` takes `impl Into<String>` arguments (cannot be named in an assume_specification);
 /// trusted wrapper whose body is the original call
 #[verifier::external_body]
